@@ -258,3 +258,125 @@ def walk(f, start_block, val, limit=400, stop_at_loop_back=True):
             continue
         return seen, "unsupported terminator"
     return seen, "limit"
+
+
+def relations(f, pos, render=None):
+    """order/equality facts established by the branch edges that dominate `pos`, normalised so that spelling does not matter:
+    a set of (lhs, op, rhs) with op in {'<', '<=', '==', '!='}; `a > b` true gives (b,'<',a), `a >= b` false gives (a,'<',b), ...
+    Operand texts come from `render(node)` (default: cast-free rendering with single-definition locals expanded)."""
+    R = render or (lambda i: q.no_casts(q.xr(f, i)))
+    out = set()
+    for a in dominating_atoms(f, pos):
+        if a[0] == "case":
+            continue
+        node, truth = a
+        n = f.nodes[f.strip(node)]
+        if n["k"] != "BinaryOperator" or len(n["c"]) != 2 or n.get("op") not in ("<", "<=", ">", ">=", "==", "!="):
+            continue
+        l, r, op = R(n["c"][0]), R(n["c"][1]), n["op"]
+        if not truth:
+            op = {"<": ">=", "<=": ">", ">": "<=", ">=": "<", "==": "!=", "!=": "=="}[op]
+        if op == ">":
+            l, r, op = r, l, "<"
+        elif op == ">=":
+            l, r, op = r, l, "<="
+        out.add((l, op, r))
+        if op in ("==", "!="):
+            out.add((r, op, l))
+    return out
+
+
+def walk_vals(f, start_block, val, limit=400, stop_at_loop_back=False, assume=None, stop_at=None):
+    """like walk(), but every assignment / compound assignment / initialisation of a local whose value is determined is recorded, and
+    the final valuation is returned as third result.  `assume(key)` may supply a value for an undetermined branch condition."""
+    val = dict(val)
+    seen_all = []
+    b = start_block
+    back = set(f.dom().get(start_block, set())) - {start_block} if stop_at_loop_back else set()
+    first = True
+    OPS = {"|=": lambda a, b: a | b, "&=": lambda a, b: a & b, "^=": lambda a, b: a ^ b, "+=": lambda a, b: a + b, "-=": lambda a, b: a - b}
+    for _ in range(limit):
+        if not first and b in back:
+            return seen_all, "loop back", val
+        first = False
+        blk = f.blocks[b]
+        for e in blk["el"]:
+            if not isinstance(e, int):
+                continue
+            if stop_at is not None and e == stop_at:
+                return seen_all, "stop", val
+            seen_all.append(e)
+            ne = f.nodes[e]
+            if ne["k"] == "ReturnStmt":
+                return seen_all, e, val
+            if ne["k"] in ("BinaryOperator", "CompoundAssignOperator") and ne.get("op") in ("=",) + tuple(OPS) and ne["c"]:
+                lk = key(f, ne["c"][0])
+                l = f.nodes[f.strip(ne["c"][0])]
+                if lk in val or (l["k"] == "DeclRefExpr" and l["ref"].get("dk") in ("local", "parm")):
+                    x = eval_expr(f, ne["c"][1], val)
+                    if ne["op"] != "=":
+                        o = val.get(lk)
+                        x = None if (x is None or o is None) else OPS[ne["op"]](o, x)
+                    if x is None:
+                        val.pop(lk, None)
+                    else:
+                        val[lk] = x
+            elif ne["k"] == "DeclStmt":
+                for d in ne["decls"]:
+                    if d.get("init") is not None:
+                        x = eval_expr(f, d["init"], val)
+                        if x is not None:
+                            val[d["n"]] = x
+                        else:
+                            val.pop(d["n"], None)
+        if isinstance(blk.get("term"), int) and f.nodes[blk["term"]]["k"] == "ReturnStmt":
+            return seen_all, blk["term"], val
+        succ = blk["succ"]
+        if b == f.exit:
+            return seen_all, "exit", val
+        if len(succ) == 1:
+            if succ[0] is None:
+                return seen_all, "dead end", val
+            b = succ[0]
+            continue
+        c = blk.get("cond")
+        if len(succ) == 2 and c is not None and blk.get("tk") != "SwitchStmt":
+            v = eval_expr(f, c, val)
+            if v is None and assume is not None:
+                v = assume(key(f, c))
+            if v is None:
+                return seen_all, "undetermined: " + key(f, c), val
+            b = succ[0] if v else succ[1]
+            if b is None:
+                return seen_all, "dead end", val
+            continue
+        if len(succ) == 2 and c is None:
+            b = succ[0] if succ[0] is not None else succ[1]
+            if b is None:
+                return seen_all, "dead end", val
+            continue
+        # switch statements: delegate to walk() for this block
+        sub_seen, sub_end = walk(f, b, val, limit=limit, stop_at_loop_back=stop_at_loop_back)
+        return seen_all + sub_seen[len([e for e in blk["el"] if isinstance(e, int)]):], sub_end, val
+    return seen_all, "limit", val
+
+
+def value_at(f, expr, site, val):
+    """value of `expr` (an argument of the call `site`) under the valuation `val`; when it is a local built up by several statements
+    (`uint x = A; if(c) x |= B;`) the statements between its declaration and the site are followed under `val`"""
+    v = eval_expr(f, expr, val)
+    if v is not None:
+        return v
+    n = f.nodes[f.strip(expr)]
+    if n["k"] != "DeclRefExpr" or n["ref"].get("dk") != "local":
+        return None
+    for d in f.nodes:
+        if d["k"] == "DeclStmt" and any(x["id"] == n["ref"]["id"] for x in d["decls"]):
+            p = f.node_pos(d["i"])
+            if p is None or not f.dominates_pos(p, f.node_pos(site)):
+                return None
+            _seen, end, fv = walk_vals(f, p[0], val, stop_at=site)
+            if end != "stop":
+                return None
+            return fv.get(n["ref"]["n"])
+    return None
